@@ -39,10 +39,10 @@ Theorem tie_matrix_not_into_matrix :
   hd ("", "", "") interp_Matrix = ("matrixInterpolator", "return", "").
 Proof. vm_compute. reflexivity. Qed.
 
-(** env interpolation of a command step: every string-bearing field except Signature (and Cache, finding F8) *)
+(** env interpolation of a command step: every string-bearing field except Signature *)
 Theorem tie_env_scope_command_step :
   set_eqb (visited_fields "envInterpolator" interp_CommandStep)
-          ["Command"; "Label"; "Plugins"; "Key"; "Env"; "Matrix"; "RemainingFields"] = true /\
+          ["Command"; "Label"; "Plugins"; "Key"; "Env"; "Matrix"; "Cache"; "RemainingFields"] = true /\
   mem "Signature" (visited_fields "envInterpolator" interp_CommandStep) = false.
 Proof. vm_compute. repeat split; reflexivity. Qed.
 
@@ -54,7 +54,8 @@ Theorem tie_env_scope_other_steps :
   visited_fields "envInterpolator" interp_UnknownStep = ["Contents"] /\
   set_eqb (visited_fields "envInterpolator" interp_Plugin) ["Source"; "Config"] = true /\
   set_eqb (visited_fields "envInterpolator" interp_Matrix) ["Setup"; "Adjustments"; "RemainingFields"] = true /\
-  set_eqb (visited_fields "envInterpolator" interp_MatrixAdjustment) ["With"; "RemainingFields"] = true.
+  set_eqb (visited_fields "envInterpolator" interp_MatrixAdjustment) ["With"; "Skip"; "RemainingFields"] = true /\
+  set_eqb (visited_fields "envInterpolator" interp_Cache) ["Name"; "Paths"; "Size"; "RemainingFields"] = true.
 Proof. vm_compute. repeat split; reflexivity. Qed.
 
 (** the regexp literal the scanner of Model/MatrixInterp.v was written for *)
